@@ -362,6 +362,21 @@ def main():
     L.append("/-- `accept_datagram`: the queue slot is reserved before the datagram is read from quinn -/")
     L.append(f"abbrev DGRAM_SLOT_BEFORE_READ : Bool := {'true' if slot_first else 'false'}")
 
+    # ---- driver/: is anything in the driver time-based? (a deadline on a preamble task, a sleep
+    # in the worker loop … would be a transition the hand-off model does not have)
+    import glob as _glob
+    timer_hits = []
+    for fpath in sorted(_glob.glob(os.path.join(repo, "wtransport/src/driver/**/*.rs"), recursive=True)):
+        txt = re.sub(r"//[^\n]*", "", strip_tests(open(fpath, encoding="utf-8").read()))
+        for mm in re.finditer(r"tokio::time|\btimeout(_at)?\s*\(|\bsleep(_until)?\s*\(|\binterval(_at)?\s*\(|\bDuration\b|\bInstant\b", txt):
+            timer_hits.append(os.path.relpath(fpath, repo) + ":" + mm.group(0).strip())
+    if not _glob.glob(os.path.join(repo, "wtransport/src/driver/mod.rs")):
+        raise Missing("wtransport/src/driver/mod.rs")
+    ex["DRIVER_TIMER_HITS"] = timer_hits[:10]
+    ex["DRIVER_TIMER_FREE"] = not timer_hits
+    L.append("/-- nothing under wtransport/src/driver/ mentions a timer (tokio::time, timeout, sleep, interval, Duration, Instant) -/")
+    L.append(f"abbrev DRIVER_TIMER_FREE : Bool := {'true' if not timer_hits else 'false'}")
+
     # ---- driver/streams/mod.rs: does `QuicSendStream::finish` always wait for `stopped()`?
     rel2 = "wtransport/src/driver/streams/mod.rs"
     s2 = rd(repo, rel2)
